@@ -5,7 +5,7 @@
          | (6 (v ...)) list | (7 B class ((B field v) ...)) record
    res:  (0 x) Ok | (1 code) Err                                                              *)
 From Coq Require Import Ascii.
-From YV Require Import Common.Tac Common.Sx C10.C10Model Gen.C10Table.
+From YV Require Import Common.Tac Common.Sx C10.C10Model C10.C10Payload Gen.C10Table.
 
 Definition str_of_bytes (l : list N) : name :=
   fold_right (fun n s => NC (ascii_of_N n) s) NE l.
@@ -81,3 +81,34 @@ Definition run_reser (arg : sx) : sx :=
   sx_of_res sx_of_pmsg
     (bind (from_proto_f fuel table (conv_arg arg) (pmsg_of_sx (sx_nth arg 1)))
           (to_proto_f fuel table (conv_arg arg))).
+
+(* ---------- received payloads (C10Payload) ---------- *)
+(* (B conv  pmsg) -> (wf lossy gap) *)
+Definition run_classify (arg : sx) : sx :=
+  let cn := conv_arg arg in
+  let p := pmsg_of_sx (sx_nth arg 1) in
+  SL [sx_bool (wf_payload fuel table cn p); sx_bool (lossy_payload fuel table cn p);
+      sx_bool (gap_payload fuel table cn p)].
+
+(* (B conv) -> ((B field  B sub-converter-or-empty) ...) : the modelled fields of a converter *)
+Definition run_modelled (arg : sx) : sx :=
+  match assoc (conv_arg arg) (t_convs table) with
+  | None => SL []
+  | Some cv =>
+    SL (map (fun f => SL [SB (bytes_of_str f);
+                          SB (match sub_conv cv f with Some c => bytes_of_str c | None => [] end)])
+            (modelled_fields cv))
+  end.
+
+(* (B conv  pmsg  ((B f ...) ...)) -> ((modelled  () | (val)) ...) : presence-aware reads *)
+Definition run_pread (arg : sx) : sx :=
+  let cn := conv_arg arg in
+  let p := pmsg_of_sx (sx_nth arg 1) in
+  SL (map (fun ph =>
+             let phi := map (fun s => str_of_bytes (sx_get_b s)) (sx_get_l ph) in
+             SL [sx_bool (modelled_path table cn phi);
+                 match pread_at p phi with Some v => SL [sx_of_val v] | None => SL [] end])
+          (sx_get_l (sx_nth arg 2))).
+
+(* the check the payload theorems are instantiated under *)
+Definition run_table_ok (arg : sx) : sx := sx_bool (table_ok table).
